@@ -45,7 +45,7 @@ struct Layout {
     inline_pad: &'static str, // inserted on the same line before the fault
 }
 
-const LAYOUTS: [Layout; 7] = [
+const LAYOUTS: [Layout; 9] = [
     Layout { nl: "\n", indent: "  ", pad: "", inline_pad: "" },
     Layout { nl: "\r\n", indent: "\t", pad: "", inline_pad: "" },
     Layout { nl: "\n", indent: "    ", pad: "// a comment line\n\n", inline_pad: "/* c */ " },
@@ -53,6 +53,9 @@ const LAYOUTS: [Layout; 7] = [
     Layout { nl: "\r\n", indent: "  ", pad: "// \u{4e16}\u{754c}\r\n", inline_pad: "/* \u{e9} */ " },
     Layout { nl: "\n", indent: "", pad: "\n\n\n", inline_pad: "void 0; " },
     Layout { nl: "\n", indent: "  ", pad: "", inline_pad: "let t = `a${1}b`; " },
+    // multi-line template literals (CRLF and LF inside the literal) before the fault
+    Layout { nl: "\r\n", indent: "  ", pad: "void `l1\r\nl2 ${1}\r\n\r\nl4`;\r\n", inline_pad: "" },
+    Layout { nl: "\n", indent: "\t", pad: "void `l1\nl2 ${`in\nner`}\n`;\n", inline_pad: "void `x\ny`; " },
 ];
 
 struct Expect {
@@ -225,11 +228,23 @@ fn context_programs(lay: Layout) -> Vec<(&'static str, String, (u32, u32, u32))>
         ("compound_assignment", "k += ", ";"),
         ("logical_right_operand", "k = k === 0 && ", ";"),
         ("spread_element", "let arr2 = [...[1], ", "];"),
+        ("method_call_argument", "k = [1, 2].indexOf(", ");"),
+        ("method_call_second_argument", "k = [1, 2].indexOf(2, ", ");"),
+        ("new_argument", "let d = new Array(1, ", ");"),
+        ("own_function_argument", "k = host2(k, ", ");"),
+        ("argument_on_its_own_line", "k = Math.max(1,\n        2,\n        ", ",\n        3);"),
+        ("callee_position", "k = ", "(1, 2);"),
+        ("computed_member_key", "k = [1, 2][", "];"),
+        ("unary_operand", "k = -", ";"),
+        ("typeof_free_call", "k = String(typeof k) + ", ";"),
+        ("throw_argument", "throw ", ";"),
+        ("nested_call_argument", "k = Math.max(Math.min(1, ", "), 3);"),
     ];
     let mut out = Vec::new();
     for (name, pre, post) in ctx {
         let mut s = Src::new();
         s.put(lay.pad);
+        s.put(&format!("function host2(a: number, b: number) {{ return a + b; }}{}", lay.nl));
         s.put(&format!("function host(a: number) {{{}", lay.nl));
         s.put(lay.indent);
         s.put(&format!("let k = 0;{}", lay.nl));
@@ -378,6 +393,18 @@ fn verif_side_c20() {
         ("getter_body", "ok",
          "const o = { get p() { return undefinedVariable; } };\nfunction readsGetter() { return o.p; }\nreadsGetter();\n",
          vec![(Some("*"), 1), (Some("readsGetter"), 2), (None, 3)]),
+        ("prologue_destructuring_function", "ok",
+         "function f({ a: { b } }: any) { return b; }\nfunction g() {\n  return f({});\n}\ng();\n",
+         vec![(Some("f"), 1), (Some("g"), 3), (None, 5)]),
+        ("prologue_destructuring_arrow", "ok",
+         "const h = (\n  { a: { b } }: any) => b;\nfunction g() {\n  return h({});\n}\ng();\n",
+         vec![(Some("h"), 2), (Some("g"), 4), (None, 6)]),
+        ("prologue_destructuring_constructor", "ok",
+         "class K {\n  constructor(x: number,\n    { a: { b } }: any) {}\n}\nfunction g() {\n  return new K(1, {});\n}\ng();\n",
+         vec![(Some("K"), 3), (Some("g"), 6), (None, 8)]),
+        ("prologue_array_pattern_method", "ok",
+         "class K {\n  m([x]: any) { return x; }\n}\nfunction g() {\n  return new K().m(undefined);\n}\ng();\n",
+         vec![(Some("m"), 2), (Some("g"), 5), (None, 7)]),
         ("sort_comparator", "ok",
          "function cmp(a: number, b: number) { return undefinedVariable + a - b; }\nfunction sorts() {\n  return [3, 1, 2].sort(cmp);\n}\nsorts();\n",
          vec![(Some("cmp"), 1), (Some("sorts"), 3), (None, 5)]),
